@@ -152,11 +152,11 @@ def add_probes(sim, times, fn):
 
 
 # --------------------------------------------------------------------------- register faults
-KINDS = {"crash": 0, "lat": 1, "loss": 2}
+KINDS = {"crash": 0, "lat": 1, "loss": 2, "capv": 3}
 
 
 def gen_reg(rng):
-    kind = rng.choice(["crash", "crash", "lat", "loss"])
+    kind = rng.choice(["crash", "crash", "lat", "loss", "capv"])
     ntgt = rng.randint(1, 3)
     pool = gen_endpoints(rng)
     mal = rng.random() < 0.08
@@ -164,6 +164,8 @@ def gen_reg(rng):
         cfg = {str(x): 0 for x in range(ntgt)}
     elif kind == "lat":
         cfg = {str(x): rng.choice([0, Q, 2 * Q]) for x in range(ntgt)}
+    elif kind == "capv":
+        cfg = {str(x): 4 * rng.choice([4, 8, 10]) for x in range(ntgt)}       # quarter units
     else:
         cfg = {str(x): rng.choice([0, 0, 1, 4, 8]) for x in range(ntgt)}
     faults = []
@@ -173,6 +175,8 @@ def gen_reg(rng):
             p = 0
         elif kind == "lat":
             p = rng.choice([Q // 4, Q // 2, Q, 2 * Q, 3 * Q // 2])
+        elif kind == "capv":
+            p = rng.choice([1, 2, 3, 4])
         else:
             p = rng.choice([0, 1, 2, 4, 8, 12, 16])
         faults.append(dict(k=kind, tgt=rng.randrange(ntgt) if rng.random() < 0.8 else 0, s=s, e=e, p=p, c=c,
@@ -187,7 +191,8 @@ def impl_reg(c):
     from happysimulator.core.simulation import Simulation
     from happysimulator.core.temporal import Instant
     from happysimulator.distributions.constant import ConstantLatency
-    from happysimulator.faults import CrashNode, InjectLatency, InjectPacketLoss, PauseNode
+    from happysimulator.components.resource import Resource
+    from happysimulator.faults import CrashNode, InjectLatency, InjectPacketLoss, PauseNode, ReduceCapacity
 
     class Node(Entity):
         def handle_event(self, event):
@@ -197,8 +202,11 @@ def impl_reg(c):
     srcs = [Node(f"s{x}") for x in range(n)]
     dsts = [Node(f"d{x}") for x in range(n)]
     ents = srcs + dsts
-    links = []
-    if kind != "crash":
+    links, ress = [], []
+    if kind == "capv":
+        ress = [Resource(f"r{x}", capacity=c["cfg"][str(x)] // 4) for x in range(n)]
+        ents = ents + ress
+    elif kind != "crash":
         net = Network("net")
         for x in range(n):
             lk = NetworkLink(f"l{x}", latency=ConstantLatency(c["cfg"][str(x)] / S if kind == "lat" else 0.25),
@@ -215,6 +223,8 @@ def impl_reg(c):
             if f["pause"]:
                 return PauseNode(f"d{x}", start=secs(f["s"]), end=secs(f["e"]))
             return CrashNode(f"d{x}", at=secs(f["s"]), restart_at=secs(f["e"]))
+        if kind == "capv":
+            return ReduceCapacity(f"r{x}", factor=f["p"] / 4, start=secs(f["s"]), end=secs(f["e"]))
         if kind == "lat":
             return InjectLatency(f"s{x}", f"d{x}", extra_ms=f["p"] / 1_000_000, start=secs(f["s"]), end=secs(f["e"]))
         return InjectPacketLoss(f"s{x}", f"d{x}", loss_rate=f["p"] / 16, start=secs(f["s"]), end=secs(f["e"]))
@@ -234,6 +244,9 @@ def impl_reg(c):
                     v = -1000                     # bystander touched
             elif kind == "lat":
                 v = links[x].latency.get_latency(Instant(t)).nanoseconds
+            elif kind == "capv":
+                r = ress[x].capacity * 4
+                v = int(r) if float(r).is_integer() else -1
             else:
                 r = links[x].packet_loss_rate * 16
                 v = int(r) if float(r).is_integer() else -1
@@ -245,7 +258,7 @@ def impl_reg(c):
 
 
 def reg_write(kind, orig, p):
-    return {"crash": 1, "lat": orig + p, "loss": min(16, orig + p)}[kind]
+    return {"crash": 1, "lat": orig + p, "loss": min(16, orig + p), "capv": orig * p // 4}[kind]
 
 
 def oracle_reg(c, obs):
@@ -277,8 +290,31 @@ def oracle_reg(c, obs):
 def attribute_overlap(c, obs, f):
     m = f.get("mechanism", "")
     if m.startswith("overlap-deactivate-restores-original:"):
-        return "C06-overlap-" + m.split(":")[1]
+        return "C06-overlap-" + m.split(":")[1].replace("capv", "cap")
     return None
+
+
+def enum_reg_cases():
+    """Every ordered pair of windows over the endpoints 1..4 s on one target, per kind
+    (nested, equal starts, equal ends, abutting, both add orders), plus every triple for crash."""
+    import itertools
+    wins = [(a, b) for a in range(1, 5) for b in range(a, 5)]
+    par = {"crash": [0, 0, 0], "lat": [Q, 2 * Q, Q // 2], "loss": [5, 7, 3], "capv": [2, 3, 1]}
+    cfg = {"crash": 0, "lat": Q, "loss": 1, "capv": 40}
+    out = []
+    for kind in ("crash", "lat", "loss", "capv"):
+        for k in (2, 3) if kind == "crash" else (2,):
+            for combo in itertools.product(wins, repeat=k):
+                out.append(dict(kind=kind, ntgt=1, cfg={"0": cfg[kind]},
+                                faults=[dict(k=kind, tgt=0, s=a * S, e=b * S, p=par[kind][i], c=None, pause=bool(i % 2))
+                                        for i, (a, b) in enumerate(combo)]))
+    return out
+
+
+def cycling_gen(cases):
+    import itertools
+    it = itertools.cycle(cases)
+    return lambda rng: next(it)
 
 
 def encode_reg(c, obs):
@@ -846,8 +882,18 @@ PROOF_FILES = ["C06/Model.v", "C06/Registers.v", "C06/Partition.v", "C06/Capacit
 
 def run(ctx):
     ctx.prove(PROOF_FILES, allowed_axioms=(), trusted_base=TRUSTED)
-    n = ctx.n(120, 3000)
+    n = ctx.n(120, 1800)
+    for fam in FAMILIES:
+        fam.parallel = not ctx.quick      # 120 cases run faster in-process than the pool's start-up
     stats = [run_family(ctx, fam, n) for fam in FAMILIES]
+    if not ctx.quick:
+        # small-scope exhaustive: every overlap pattern of 2 (all kinds) / 3 (crash) windows over 4 endpoints
+        import dataclasses
+        cases = enum_reg_cases()
+        enum_fam = dataclasses.replace(FAMILIES[0], gen=cycling_gen(cases))
+        st = run_family(ctx, enum_fam, len(cases), search_factor=0)
+        st["family"] = "reg(enumerated)"
+        stats.append(st)
     merge_stats(ctx, stats, "random fault schedules (1-5 faults, endpoints from a pool of <= 6 instants, cancels, permanent crashes); non-trivial = two windows on one target overlap; distinct by JSON of the input")
     ctx.finish_obligations()
 
